@@ -115,13 +115,14 @@ class C08(Check):
         "the identity; distinct = distinct spec."
     )
     assumptions = [
-        "non-strict mode: only programs without faults (pure permutations) are judged (linking, order, error raising)",
+        "non-strict mode: only programs without faults (pure permutations) are judged for order and error raising; for faulty bodies a non-strict client accepts, only the linking invariant is judged (a linked response has its request's id; a requested id present once is linked to that request)",
         "an added response with a null id is not generated (null ids are ignored by matching)",
     ]
     trusted_base = ['reference relation in checks/c08.py', 'pbt/wellformed.py']
     required_classes = ['verdict/ok', 'verdict/identity', 'verdict/deser', 'verdict/batch-error', 'op/perm', 'op/omit', 'op/dup', 'op/add',
                         'op/retype', 'op/null', 'op/replace-body', 'single/equal', 'single/different', 'single/null', 'single/type-confused',
-                        'strict/on', 'strict/off', 'client/sync', 'client/async', 'reordered-ok', 'error-mix']
+                        'strict/on', 'strict/off', 'client/sync', 'client/async', 'reordered-ok', 'error-mix',
+                        'non-strict/faulty-body-accepted']
 
     # ---- generation ------------------------------------------------------------------------------------
 
@@ -221,6 +222,7 @@ class C08(Check):
         judged = (strict or pure_perm) and verdict != 'undecided'
         where = f"client={kind} strict={strict} calls={jg.short(calls)} notifications={spec['notifications']} program={spec['program']} body={text[:300]}"
         discs: List[Disc] = []
+        classes_extra: List[str] = []
 
         def transport(t: str, is_notification: bool, k: int):
             return text
@@ -250,6 +252,22 @@ class C08(Check):
                     discs.append(Disc("C08/send/position-not-in-call-order", f"position {k} holds id {resp[k].id!r}, call {k} has id {req.id!r} (extra null-id element present) | {where}"))
                     break
 
+        # whatever the mode and the faults: a response the client ACCEPTED and linked is linked to the request with the same id
+        # (type-aware), and a response whose id was requested and occurs once in the body is linked to exactly that request
+        if exc is None and resp is not None and resp.is_success:
+            body_ids = [el.get('id') for el in body if isinstance(el, dict)] if isinstance(body, list) else []
+            for r in resp:
+                rel = r.related
+                if rel is not None and not typed_eq(rel.id, r.id):
+                    discs.append(Disc("C08/send/linked-to-request-with-another-id", f"response id {r.id!r} is linked to the request with id {rel.id!r} | {where}"))
+                    break
+                owners = [q for q in reqs if typed_eq(q.id, r.id)]
+                if r.id is not None and len(owners) == 1 and len([i for i in body_ids if typed_eq(i, r.id)]) == 1 and rel is not owners[0]:
+                    discs.append(Disc("C08/send/related-not-linked", f"response id {r.id!r} (requested, present once) is linked to {rel!r} | {where}"))
+                    break
+            if not strict and not pure_perm:
+                classes_extra.append('non-strict/faulty-body-accepted')
+
         # (2) batch.add(...).notify(...).call() with an id generator yielding the same ids
         ids_iter = list(call_ids)
         client2 = ch.make_client(kind, transport, strict=strict, id_gen_impl=lambda: iter(ids_iter))
@@ -265,7 +283,7 @@ class C08(Check):
         if judged:
             discs += self._judge_call(verdict, payload, value, exc2, calls, where)
 
-        classes = [f"verdict/{verdict}", 'strict/on' if strict else 'strict/off', f"client/{kind}", f"n={len(calls)}"]
+        classes = [f"verdict/{verdict}", 'strict/on' if strict else 'strict/off', f"client/{kind}", f"n={len(calls)}"] + classes_extra
         for op in spec['program']:
             classes.append(f"op/{op[0]}")
         if verdict == 'ok' and not identity_program:
